@@ -572,6 +572,20 @@ func (g *gen) genGet() Step {
 	return Step{K: "get", Get: &q}
 }
 
+// bigCase: more entries in one table than any plausible batching limit of the Get stream (one instance, one table
+// and ALL), so that a response that packs or splits entries must still deliver every one of them.
+func bigCase(n int) Case {
+	c := Case{VRFs: []int{2}}
+	ip := ipPool[0]
+	for i := 1; i <= n; i++ {
+		e := Entry{T: "nh", Key: uint64(i), IP: &ip}
+		c.Steps = append(c.Steps, Step{K: "add", NI: 1 + i%2, E: &e})
+	}
+	c.Steps = append(c.Steps, Step{K: "get", Get: &drv.GetSpec{NI: "name", Name: 1, AFT: "NH"}},
+		Step{K: "get", Get: &drv.GetSpec{NI: "all", AFT: "ALL"}}, Step{K: "get", Get: &drv.GetSpec{NI: "all", AFT: "NH"}})
+	return c
+}
+
 func genCase(r *drv.Rng) Case {
 	c := Case{VRFs: []int{}}
 	switch {
@@ -614,12 +628,36 @@ func genCase(r *drv.Rng) Case {
 				g.nhg[ni][e.Key] = true
 			}
 			c.Steps = append(c.Steps, Step{K: "add", NI: ni, E: &e})
-		case x < 75:
+		case x < 70:
 			e := g.genTop(ni)
 			st := Step{K: "add", NI: ni, E: &e}
 			g.tops = append(g.tops, st)
 			c.Steps = append(c.Steps, st)
-		case x < 80 && len(g.tops) > 0:
+		case x < 78 && len(g.tops) > 0:
+			// an installed entry is programmed again with the same group and only its optional leaves changed,
+			// added or removed: what Get returns is the payload programmed last
+			t := g.tops[r.Intn(len(g.tops))]
+			e := *t.E
+			switch r.Intn(3) {
+			case 0:
+				e.Meta, e.Popped = nil, nil
+			case 1:
+				if e.T == "mpls" {
+					st := append([]uint32{}, drv.Pick(r, stackPool...)...)
+					e.Popped = &st
+				} else {
+					m := append([]int{}, drv.Pick(r, metaPool...)...)
+					e.Meta = &m
+				}
+			default:
+				if e.NHGNI != nil && *e.NHGNI == t.NI {
+					e.NHGNI = nil
+				}
+			}
+			st := Step{K: drv.Pick(r, "add", "replace"), NI: t.NI, E: &e}
+			g.tops = append(g.tops, st)
+			c.Steps = append(c.Steps, st)
+		case x < 81 && len(g.tops) > 0:
 			t := g.tops[r.Intn(len(g.tops))]
 			e := Entry{T: t.E.T, Key: t.E.Key}
 			c.Steps = append(c.Steps, Step{K: "del", NI: t.NI, E: &e})
